@@ -85,6 +85,7 @@ def observe(rule_name, element, kids, assignment, reuse=False):
     """-> (failfast outcome, collecting outcome)"""
     res = []
     for mode in ("failfast", "collecting"):
+        declared_ns = any(":" in k for k, _ in assignment) and (len(assignment) + len(rule_name)) % 2 == 0
         if reuse:
             # a long-lived node whose attributes are replaced in place (values changed, attributes removed and added)
             n, _new = emlkit.long_lived_node(rule_name, element, kids)
@@ -97,6 +98,12 @@ def observe(rule_name, element, kids, assignment, reuse=False):
                 n.attributes = dict(assignment)
         else:
             n = emlkit.make_node(rule_name, element, kids, attributes=dict(assignment))
+        if declared_ns:
+            # the prefix of a colon-named attribute is bound in the node's namespace map (as on nodes of imported or saved models):
+            # the attribute is in the plain attribute dictionary all the same, and the rule does not list it
+            for k, _ in assignment:
+                if ":" in k and k.split(":")[0] not in n.nsmap:
+                    n.add_namespace(k.split(":")[0], "http://www.w3.org/2001/XMLSchema-instance")
         # insertion order as given
         errs = None if mode == "failfast" else []
         prefilled = mode == "collecting" and len(assignment) % 2 == 1
@@ -112,7 +119,12 @@ def observe(rule_name, element, kids, assignment, reuse=False):
             emlkit.discard(twin)
             before = list(errs)
         try:
-            emlkit.validate_as(rule_name, n, errs)
+            if reuse:
+                # ... validated through one long-lived Rule object (what it validated before must not matter either)
+                r_ = emlkit.long_lived_rule(rule_name)
+                r_.validate_rule(n) if errs is None else r_.validate_rule(n, errs)
+            else:
+                emlkit.validate_as(rule_name, n, errs)
             if prefilled:
                 errs = errs[len(before):] if errs[:len(before)] == before and all(a is b for a, b in zip(errs, before)) else ["earlier-entries-disturbed"]
             if mode == "failfast":
